@@ -578,10 +578,12 @@ impl<'a> Searcher<'a> {
     ) -> io::Result<()> {
         // Prevents infinite loops when following symlinks
         if self.current_follow_symlinks {
-            if self.visited_dirs.contains(&dir.to_path_buf()) {
+            // one real directory can be reached under several names (a relative root, a chain of links)
+            let real_dir = dir.canonicalize().unwrap_or_else(|_| dir.to_path_buf());
+            if self.visited_dirs.contains(&real_dir) {
                 return Ok(());
             } else {
-                self.visited_dirs.insert(dir.to_path_buf());
+                self.visited_dirs.insert(real_dir);
             }
         }
 
